@@ -4,7 +4,10 @@ seeding only the time, nano >=, no mutex - each violate the contract), plans rep
 against snowflake.HardNode with the clock hook as a rendez-vous, seeded clock walks / bursts / restarts /
 free-running goroutines and cold-start rounds on HardNode, MonoNode and the nano generators, one caller using
 two nodes in turns, constructors with node numbers at and beyond the node width, layouts installed through the
-public Setup as well as through the hook; every returned id validated by IdGen_Trace (contract layer only).
+public Setup as well as through the hook, layouts changed while generators live (the package's epoch
+replaced under a living node, restarts with ids taken under the previous epoch, two nodes of different
+layouts used in turns with each node's layout installed before it is called), runs of exactly 4095..8193
+calls in one millisecond (65537 in the thorough tier), zero values of the nano types; every returned id validated by IdGen_Trace (contract layer only).
 Every history runs under a watchdog: a call that never returns, a refused constructor and a panic are
 events of their own kind that the contract rejects (never exit 2)."""
 
@@ -14,7 +17,7 @@ def run(ctx):
     ctx.tlc_mc(fam, "IdGen", "IdGen_MC.cfg", workers=4, coverage=ctx.thorough, label="sequential, all layouts")
     ctx.tlc_mc(fam, "IdGen", "IdGen_MC_conc.cfg", workers=4, label="two overlapping callers")
     devs = ("nocarry", "nomutex", "ge", "seedtime", "nanoge")
-    for dev in (devs if ctx.thorough else devs[:3]):
+    for dev in (devs if ctx.thorough else devs[:2]):
         ctx.tlc_mc(fam, "IdGen", "IdGen_MC_bug_%s.cfg" % dev, workers=1, expect_violation="Contract",
                    label="witness: deviation %s" % dev)
     if ctx.thorough:
@@ -41,7 +44,7 @@ def run(ctx):
                          "-mono", ctx.q(3, 12), "-monocalls", ctx.q(9000, 20000),
                          "-nano", ctx.q(40, 600), "-nconc", ctx.q(16, 96), "-perg", ctx.q(120, 200),
                          "-pair", ctx.q(40, 500), "-bad", ctx.q(16, 64), "-cold", ctx.q(200, 2500),
-                         "-coldms", ctx.q(2000, 20000)],
+                         "-coldms", ctx.q(2000, 20000), "-longrun", ctx.q(0, 65537)],
                 traces=[seqf, concf])
     seq = ctx.load_traces(seqf)
     conc = ctx.load_traces(concf)
